@@ -14,8 +14,8 @@ import (
 	"math/rand"
 	"os"
 	"reflect"
-	"sort"
 	"runtime"
+	"sort"
 	"strconv"
 	"strings"
 	"sync"
@@ -96,12 +96,14 @@ type logEnt struct {
 }
 
 type world struct {
-	u     *Universe
-	root  *ggql.Root
-	subs  []*hsub // index s-1
-	mu    sync.Mutex
-	log   []logEnt
-	evObj map[string][2]interface{}
+	shared bool                        // subscription requests are parsed once per selection and resolved per subscriber
+	exes   map[string]*ggql.Executable // (guarded by mu)
+	u      *Universe
+	root   *ggql.Root
+	subs   []*hsub // index s-1
+	mu     sync.Mutex
+	log    []logEnt
+	evObj  map[string][2]interface{}
 }
 
 type hsub struct {
@@ -226,8 +228,11 @@ func evStruct(vals map[string]TV) interface{} {
 	return st.Interface()
 }
 
+var worldCount int
+
 func newWorld(u *Universe) *world {
-	w := &world{u: u, evObj: map[string][2]interface{}{}}
+	worldCount++
+	w := &world{u: u, evObj: map[string][2]interface{}{}, shared: false, exes: map[string]*ggql.Executable{}}
 	w.root = ggql.NewRoot(&rootObj{w: w})
 	if err := w.root.ParseString(u.sdl()); err != nil {
 		vh.Die("schema does not load: %s", err)
@@ -242,7 +247,31 @@ func newWorld(u *Universe) *world {
 }
 
 func (w *world) subscribe(s int) map[string]interface{} {
-	q := fmt.Sprintf("subscription { watch(sub: %d) { %s } }", s, w.u.selText(w.u.Pool[s-1].Sel))
+	sel := w.u.selText(w.u.Pool[s-1].Sel)
+	if w.shared {
+		// one parsed request per selection, resolved once per subscriber (a server that prepares its requests):
+		// every subscription still gets its own selection set applied to the events
+		w.mu.Lock()
+		exe := w.exes[sel]
+		if exe == nil {
+			var err error
+			if exe, err = w.root.ParseExecutableString(fmt.Sprintf("subscription($s: Int) { watch(sub: $s) { %s } }", sel)); err != nil {
+				w.mu.Unlock()
+				return map[string]interface{}{"errors": ggql.FormErrorsResult(err)}
+			}
+			w.exes[sel] = exe
+		}
+		w.mu.Unlock()
+		res, err := w.root.ResolveExecutable(exe, "", map[string]interface{}{"s": s})
+		if res == nil {
+			res = map[string]interface{}{}
+		}
+		if err != nil {
+			res["errors"] = ggql.FormErrorsResult(err)
+		}
+		return res
+	}
+	q := fmt.Sprintf("subscription { watch(sub: %d) { %s } }", s, sel)
 	return w.root.ResolveString(q, "", nil)
 }
 
@@ -416,6 +445,7 @@ func sortedCopy(a []int) []int {
 // ids, one entry per block), and returns the blocks as observed.
 func execSchedule(u *Universe, init []int, ops map[int][]op, schedule []int, evMode int) (events []Block, problem string) {
 	w := newWorld(u)
+	w.shared = len(ops) <= 1 && worldCount%2 == 0
 	activeSched = nil
 	for _, s := range init {
 		r := w.subscribe(s)
@@ -1070,6 +1100,7 @@ func cmdRecord(args []string) {
 	sort.Strings(evNames)
 	for h := 0; h < *n; h++ {
 		w := newWorld(&u)
+		w.shared = worldCount%2 == 0 // sequential histories: every second root prepares its subscription requests
 		used := map[int]bool{}
 		events := []Block{{B: "init", P: 0, Reg: []int{}}}
 		for k := 0; k < *l; k++ {
